@@ -2,6 +2,7 @@ package main
 
 import (
 	"go/token"
+	"go/types"
 	"strings"
 
 	"golang.org/x/tools/go/ssa"
@@ -461,4 +462,157 @@ func c05allocFits(c *Ctx, r *Result) {
 		r.Errorf("C05.6: only %d allocate-then-write pairs resolved", n)
 	}
 	r.Floor("C05.6", 2)
+}
+
+func init() {
+	reg := registry["C05"]
+	reg.Meta.Rules["C05.7"] = "where a function allocates space and writes a buffer at the returned address itself, the allocation is sized by that buffer: Allocate(len(buf)) with the same buf, or a size provably equal to its length"
+	except("C05", "C05.7", "structures.WritableBTreeV2.WriteToFile#encodeLeafNode#allocation-sized-by-written-buffer", "deliberate: the leaf gets a full node (nodeSize) so that it can grow in place, while only the used part (calculateLeafSize) is written; used <= nodeSize because inserts beyond the node capacity are refused (C14.1 / calculateMaxRecords)")
+	reg.Rules = append(reg.Rules, func(c *Ctx, r *Result) {
+		n := 0
+		for _, fn := range c.LibFuncs() {
+			pk := shortPkg(fnPkgPath(fn))
+			if pk != "hdf5" && pk != "structures" && pk != "writer" && pk != "core" {
+				continue
+			}
+			fb := c.FB(fn)
+			for _, site := range callsIn(fn) {
+				call, ok := site.(*ssa.Call)
+				if !ok {
+					continue
+				}
+				name := ""
+				if call.Call.IsInvoke() {
+					name = call.Call.Method.Name()
+				} else if f := call.Call.StaticCallee(); f != nil {
+					name = f.Name()
+				}
+				if name != "WriteAtAddress" && name != "WriteAt" {
+					continue
+				}
+				args := call.Call.Args
+				if len(args) < 2 {
+					continue
+				}
+				buf, addr := args[len(args)-2], stripConv(args[len(args)-1])
+				if !isByteSlice(buf.Type()) {
+					continue
+				}
+				// addr is exactly the first result of an Allocate call in this function
+				ex, ok := addr.(*ssa.Extract)
+				if !ok || ex.Index != 0 {
+					continue
+				}
+				al, ok := ex.Tuple.(*ssa.Call)
+				if !ok {
+					continue
+				}
+				an := ""
+				if al.Call.IsInvoke() {
+					an = al.Call.Method.Name()
+				} else if f := al.Call.StaticCallee(); f != nil {
+					an = f.Name()
+				}
+				if an != "Allocate" || len(al.Call.Args) == 0 {
+					continue
+				}
+				n++
+				size := al.Call.Args[len(al.Call.Args)-1]
+				prod := buf.Name()
+				switch b := buf.(type) {
+				case *ssa.Extract:
+					if pc, ok := b.Tuple.(*ssa.Call); ok {
+						prod = lastSeg(c.calleeName(pc))
+					}
+				case *ssa.Call:
+					prod = lastSeg(c.calleeName(b))
+				case *ssa.Parameter:
+					prod = b.Name()
+				default:
+					prod = "buffer"
+				}
+				cons := c.Name(fn) + "#" + prod + "#allocation-sized-by-written-buffer"
+				want := fb.lenOfOperand(buf)
+				got := fb.lin(size)
+				switch {
+				case got.equal(want):
+					r.Hold("C05.7", cons, c.InstrPos(call), "Allocate("+fb.linString(got)+") and the buffer written there has that length")
+				default:
+					// both sides constant-evaluable?
+					gk, ok1 := c.constEval(size)
+					if ok1 && want.isConst() {
+						r.Check(gk == want.C, "C05.7", cons, c.InstrPos(call), "allocated "+itoa(int(gk))+" bytes, written "+itoa(int(want.C)))
+						continue
+					}
+					// the buffer comes from an encoder that makes it with a size expression: compare the canonical size expressions
+					if rv, _, isH := helperResult(scope{fn: fn, bind: map[ssa.Value]ssa.Value{}}, buf); isH {
+						if mk, isMk := rv.(*ssa.MakeSlice); isMk {
+							le, ok1 := c.sizeExpr(mk.Len)
+							ne, ok2 := c.sizeExpr(size)
+							if ok1 && ok2 && le != "" && le == ne {
+								r.Hold("C05.7", cons, c.InstrPos(call), "allocated "+ne+" bytes; the encoder makes its buffer with the same size expression")
+								continue
+							}
+						}
+					}
+					r.Viol("C05.7", cons, c.InstrPos(call), "the allocation is sized by "+fb.linString(got)+" but the buffer written at the returned address has length "+fb.linString(want)+": the two are computed separately and nothing ties them together (a longer buffer overwrites the next allocation)")
+				}
+			}
+		}
+		if n < 5 {
+			r.Errorf("C05.7: only %d allocate-then-write sites found", n)
+		}
+	})
+}
+
+func isByteSlice(t types.Type) bool {
+	s, ok := t.Underlying().(*types.Slice)
+	if !ok {
+		return false
+	}
+	b, ok := s.Elem().Underlying().(*types.Basic)
+	return ok && b.Kind() == types.Byte
+}
+
+func init() {
+	reg := registry["C05"]
+	reg.Meta.Rules["C05.8"] = "the size recorded for a chunk in the chunk index is the length of the bytes stored at the recorded address (the buffer handed to WriteAtAddress with that address), not of an earlier form of the chunk"
+	reg.Rules = append(reg.Rules, func(c *Ctx, r *Result) {
+		fn := c.Fn(r, "hdf5.DatasetWriter.writeChunkedData")
+		if fn == nil {
+			return
+		}
+		fb := c.FB(fn)
+		n := 0
+		for _, site := range callsIn(fn) {
+			if c.calleeName(site) != "structures.ChunkBTreeWriter.AddChunkWithSize" {
+				continue
+			}
+			args := site.Common().Args
+			if len(args) < 4 {
+				continue
+			}
+			addr, size := args[2], args[3]
+			var stored ssa.Value
+			for _, s2 := range callsIn(fn) {
+				if c.calleeName(s2) == "writer.FileWriter.WriteAtAddress" && stripConv(s2.Common().Args[2]) == stripConv(addr) {
+					stored = s2.Common().Args[1]
+				}
+			}
+			n++
+			cons := c.Name(fn) + "#indexed-size-is-stored-length"
+			if stored == nil {
+				r.Viol("C05.8", cons, c.InstrPos(site.(ssa.Instruction)), "no WriteAtAddress stores bytes at the address recorded in the index")
+				continue
+			}
+			same := fb.lin(size).equal(fb.lenOfOperand(stored))
+			if of := lenOperand(size); of != nil && (of == stored || fb.lenOfOperand(of).equal(fb.lenOfOperand(stored))) {
+				same = true // uint32(len(stored)): the narrowing is the format's field width
+			}
+			r.Check(same, "C05.8", cons, c.InstrPos(site.(ssa.Instruction)), "size in the index key = "+fb.linString(fb.lin(size))+", bytes stored at that address = "+fb.linString(fb.lenOfOperand(stored)))
+		}
+		if n == 0 {
+			r.Undec("C05.8", c.Name(fn)+"#indexed-size-is-stored-length", c.Pos(fn.Pos()), "writeChunkedData does not call AddChunkWithSize")
+		}
+	})
 }
